@@ -38,6 +38,9 @@ META = {
 }
 
 
+GC_EACH_RUN = True  # see sim/worker.run_tape
+
+
 def tier_cfg(tier):
     return {"maxdim": 6 if tier == "quick" else 9}
 
